@@ -99,7 +99,7 @@ func loadVersionRules(r *Run, rule string) {
 				// the id is a local assigned under `found`: from the found edge the assignment always precedes the load call
 				var asg ssa.Instruction
 				Instrs(f, func(in ssa.Instruction) {
-					if st, ok := in.(*ssa.Store); ok && strings.HasSuffix(P.TermAt(st.Val, st).String(), "]#0.Core.CommitID") && strings.HasPrefix(P.TermAt(st.Addr, st).String(), "addr:id") {
+					if st, ok := in.(*ssa.Store); ok && strings.HasSuffix(P.TermAt(st.Val, st).String(), "]#0.Core.CommitID") && strings.HasPrefix(P.TermAt(st.Addr, st).String(), "addr:store/types.CommitID") {
 						asg = in
 					}
 				})
